@@ -894,6 +894,10 @@ func (zl *zlexer) Next() (lex, bool) {
 					l.value = zDirGenerate
 				}
 
+				// The arguments of a directive are names, file names and
+				// numbers, never type or class keywords.
+				zl.rrtype = l.value != zOwner
+
 				retL = *l
 			} else {
 				l.value = zString
